@@ -195,8 +195,8 @@ class Datapath:
 
     # ---- operations
     def conv(self, k, depthwise):
-        if k.ifm.bits != 8:
-            raise NotModelled("16-bit convolution")
+        if k.ifm.bits not in (8, 16):
+            raise NotModelled("%d-bit convolution" % k.ifm.bits)
         x = self.padded(k, self.ifm_upscaled(k))
         W, bias, scale, shift, info = self.weights(k, depthwise)
         dy, dx = k.dil
@@ -215,8 +215,8 @@ class Datapath:
         return self.output(k, y)
 
     def pool(self, k):
-        if k.ifm.bits != 8:
-            raise NotModelled("non 8-bit pooling")
+        if k.ifm.bits not in (8, 16):
+            raise NotModelled("%d-bit pooling" % k.ifm.bits)
         xin = self.ifm_upscaled(k)
         if k.sub == "MAX":
             big = -(1 << 40)
@@ -255,8 +255,14 @@ class Datapath:
 
     def elementwise(self, k):
         wide = k.ifm.bits == 32 or k.ofm.bits == 32 or (k.ifm2 is not None and not (k.bcast & 0x80) and k.ifm2.bits == 32)
-        if 16 in (k.ifm.bits, k.ofm.bits) or (k.ifm2 is not None and k.ifm2.bits == 16):
-            raise NotModelled("16-bit elementwise")
+        if 16 in (k.ifm.bits, k.ofm.bits):
+            same16 = (k.ifm.bits == k.ofm.bits == 16 and k.sub in ("ADD", "SUB", "MUL", "MIN", "MAX", "ABS")
+                      and (k.ifm2 is None or (k.bcast & 0x80) or k.ifm2.bits == 16))
+            # 32-bit product / selection written as 16 bit (MEAN), 16-bit operand selected into 32 bit (LEAKY_RELU with negative alpha)
+            mixed = ((k.ifm.bits, k.ofm.bits) in ((32, 16), (16, 32)) and k.sub in ("MUL", "MIN", "MAX")
+                     and (k.ifm2 is None or (k.bcast & 0x80) or k.ifm2.bits == k.ifm.bits))
+            if not (same16 or mixed):
+                raise NotModelled("16-bit elementwise " + str(k.sub))
         if wide and (k.sub not in ("ADD", "SUB", "MUL", "MIN", "MAX") or k.uses_lut):
             raise NotModelled("32-bit elementwise " + str(k.sub))
         if wide and k.sub in ("ADD", "SUB") and (k.ifm_scale_mode != 0 or k.opa_scale[0] != 1 or k.opb_scale[0] != 1):
@@ -302,7 +308,7 @@ class Datapath:
             else:
                 # one operand is rescaled with a 32-bit scale/shift (which already contains the fixed input left shift of 20
                 # bits and the factor 1/2 of the reference scheme); the other one is only shifted left by 20 - 1
-                ls = 20
+                ls = 20 if k.ifm.bits == 8 else 15
                 scaled_is_a = (mode == 1)
                 # OPA / OPB name the first / second operand of the arithmetic (after operand reversal)
                 if scaled_is_a:
